@@ -91,6 +91,13 @@ def script_cases(rnd, quick):
             pks = [P.pubkey(k) for k in sks]
             script = R.pushnum(m) + b"".join(P.push(k) for k in pks) + R.pushnum(n_keys) + bytes([OP_CHECKMULTISIG if shape == "multisig" else OP_CHECKMULTISIGVERIFY]) + (b"\x51" if shape != "multisig" else b"")
             code = script
+            # an executed OP_CODESEPARATOR in front: the script code of every signature of the multisig starts behind it (also in v0
+            # scripts under CONST_SCRIPTCODE); a signature over the whole script must not verify
+            cs_mode = rnd.choice((None, None, "behind", "behind", "whole"))
+            if cs_mode:
+                script = bytes([0x51, 0x75, OP_CODESEP]) + script
+                if cs_mode == "whole": code = script
+                shape = shape + "+codesep-" + cs_mode
             which = sorted(rnd.sample(range(n_keys), m))
             if rnd.random() < 0.2: which = which[::-1]
             dummy = b"" if rnd.random() < 0.8 else b"\x01"
